@@ -954,10 +954,20 @@ func (fr *Frame) enterLoopHeader(b *ssa.BasicBlock, li *LoopInfo) {
 	vars := fr.invariantEnv(li, phiVals)
 	li.phiEnv = vars
 	env := &SpecEnv{vc: vc, vars: vars, st: st, old: fr.topFrame.funcEntry}
+	type scopedInv struct {
+		f    string
+		tags []string
+	}
+	var scopedInvs []scopedInv
 	for _, c := range fr.loopClauses(li) {
 		tv, err := env.tr(c.E)
 		if err != nil {
 			continue // already reported
+		}
+		if hasProp(c.Props, "scoped") {
+			// an invariant marked scoped is assumed at the loop head only for the obligations of its property / group
+			scopedInvs = append(scopedInvs, scopedInv{tv.T, c.Props})
+			continue
 		}
 		facts = append(facts, tv.T)
 	}
@@ -966,6 +976,9 @@ func (fr *Frame) enterLoopHeader(b *ssa.BasicBlock, li *LoopInfo) {
 	}
 	r := vc.fresh(fmt.Sprintf("R_loop%d", li.ordinal), "Bool")
 	vc.assume(implies(r, and(append([]string{entryReach}, facts...)...)))
+	for _, si := range scopedInvs {
+		vc.assumeScoped(implies(r, si.f), si.tags)
+	}
 	fr.reach = r
 	fr.st = st
 }
